@@ -151,13 +151,36 @@ def write_map(entries, chunks):
     return bytes(out)
 
 
-def write(entries, chunks, sync, codec, blocks):
+def compress_variants(codec):
+    """Other ways a conforming writer may produce the same codec's payload: name -> function(bytes) -> bytes."""
+    if codec == "deflate":
+        def mk(level, strategy=zlib.Z_DEFAULT_STRATEGY):
+            def f(data):
+                c = zlib.compressobj(level, zlib.DEFLATED, -15, 9, strategy)
+                return c.compress(data) + c.flush()
+            return f
+        return {"stored-blocks": mk(0), "level-9": mk(9), "huffman-only": mk(6, zlib.Z_HUFFMAN_ONLY), "level-1": mk(1)}
+    if codec == "bzip2":
+        return {"level-1": lambda d: bz2.compress(d, 1), "two-streams": None}
+    if codec == "xz":
+        big = [{"id": lzma.FILTER_LZMA2, "preset": 0, "dict_size": 1 << 26}]
+        return {
+            "dict-64MiB": lambda d: lzma.compress(d, format=lzma.FORMAT_XZ, filters=big),          # what `xz -9` declares
+            "check-none": lambda d: lzma.compress(d, format=lzma.FORMAT_XZ, check=lzma.CHECK_NONE),
+            "check-sha256": lambda d: lzma.compress(d, format=lzma.FORMAT_XZ, check=lzma.CHECK_SHA256),
+            "check-crc32": lambda d: lzma.compress(d, format=lzma.FORMAT_XZ, check=lzma.CHECK_CRC32),
+            "preset-0": lambda d: lzma.compress(d, format=lzma.FORMAT_XZ, preset=0),
+        }
+    return {}
+
+
+def write(entries, chunks, sync, codec, blocks, compressor=None):
     """blocks: list of (count, payload bytes).  entries decide whether the codec
     key is present."""
     out = bytearray(MAGIC)
     out += write_map(entries, chunks)
     out += sync
     for cnt, payload in blocks:
-        data = compress(codec, payload)
+        data = compressor(payload) if compressor is not None else compress(codec, payload)
         out += zigzag(cnt) + zigzag(len(data)) + data + sync
     return bytes(out)
